@@ -112,8 +112,38 @@ def run(ctx):
             elif k not in kernels:
                 kernels.add(k)
                 ksites += selector_rule(ctx, prog, k, pty.name + '::mul_add-kernel')
+    # P8E0: every operand pair (a, b) with the addends that make the fused result hard - the one cancelling the rounded product (the exact residual
+    # must come out), and in the thorough tier also +-minpos (a lone sticky bit of either sign), the rounded product itself, +-ONE and +-maxpos -
+    # singly (enumeration of singleton cells)
+    p8 = P8.posit
+    m8 = mask(8)
+    trip = []
+    for a in range(256):
+        va = p8.decode(a)
+        for b in range(256):
+            vb = p8.decode(b)
+            r = p8.nar if (va == S.NAR or vb == S.NAR) else p8.encode(va * vb)
+            cs = [(-r) & m8]
+            if ctx.tier == 'thorough':
+                cs += [r, 1, 0xff, P8.one, (-P8.one) & m8, P8.maxpos, (-P8.maxpos) & m8]
+            trip += [(a, b, c) for c in dict.fromkeys(cs)]
+    n8 = 0
+    for name, f in FUNCS.items():
+        path = prog.inherent(P8.tykey, name)
+        if not path:
+            continue
+        if name == 'mul_add':
+            pts = trip
+        elif name == 'mul_sub':
+            pts = [(a, b, (-c) & m8) for a, b, c in trip]
+        else:
+            pts = [(c, (-a) & m8, b) for a, b, c in trip]
+        pjobs.append(dict(rule='GCR', label='P8E0::%s' % name, path=path, pty=P8, points=pts, spec=tspec(P8, f)))
+        n8 += len(pts)
+    ctx.count('p8_enumerated_triples', n8)
+    ctx.rules.append('singleton cells: every P8E0 operand pair (a, b) with the addend cancelling the rounded product (thorough: eight addends), for the three spellings')
     from props.common import run_points_parallel
-    run_points_parallel(ctx, prog, pjobs)
+    run_points_parallel(ctx, prog, pjobs, chunk=1024)
     # R10 with one symbolic operand: one factor the constant 2^t, the other *every* posit of a regime cell, the addend a constant placed so that the
     # exact result is a routing of the symbolic operand's bits; then the rounding cases.  Proves alignment of product and addend, sticky collection
     # (incl. product bits deeper than the target precision when t != 0), rounding, carry-out and the borrow correction on those families.
